@@ -161,7 +161,14 @@ def env_noise(s, allow_faults=True, pfault=0.12):
     elif k < 0.56:
         if s.held: s.add(op="unhold"); s.held = False
         else: s.add(op="hold"); s.held = True
-    elif k < 0.56 + pfault and allow_faults:
+    elif k < 0.58:
+        # a lost acknowledgement on a healthy connection (C02): only the client's own 20 s watchdog can recover
+        if not s.held: s.add(op="hold")
+        if r.random() < 0.7: s.pub(r.choice([1, 2]))
+        else: s.sub()
+        s.add(op="advance", ms=1); s.add(op="lose", i=0)
+        if not s.held: s.add(op="unhold")
+    elif k < 0.58 + pfault and allow_faults:
         fault_step(s)
     elif k < 0.74 and s.live:
         s.add(op="cancel_op", id=r.choice(s.live), type=r.choice(["total", "total", "partial"]))
